@@ -59,6 +59,8 @@ type Conn struct {
 	closedPeer  bool
 	FramesIn    int
 	LostWrites  int // bytes written after the peer closed
+	Waiting     int // free-running mode: readers currently blocked waiting for data
+	Consumed    int // bytes handed to the client
 	BadStream   string
 }
 
@@ -111,6 +113,7 @@ func (c *Conn) Read(b []byte) (int, error) {
 		if len(c.in) >= len(b) {
 			copy(b, c.in)
 			c.in = c.in[len(b):]
+			c.Consumed += len(b)
 			return len(b), nil
 		}
 		if c.ctx.Err() != nil || c.closedLocal {
@@ -125,7 +128,9 @@ func (c *Conn) Read(b []byte) (int, error) {
 		if n.S != nil {
 			n.S.Wait(c)
 		} else {
+			c.Waiting++
 			n.cond.Wait()
+			c.Waiting--
 		}
 	}
 }
@@ -292,3 +297,13 @@ func (m *MemStore) Store(s *session.Session) error {
 }
 
 func (c *Conn) Announced() bool { return c.announced }
+
+// Idle (free-running mode): everything pushed has been consumed and a reader is blocked waiting for more.
+func (c *Conn) Idle() bool {
+	c.net.mu.Lock()
+	defer c.net.mu.Unlock()
+	return len(c.in) == 0 && c.Waiting > 0
+}
+
+func (n *Net) Lock()   { n.mu.Lock() }
+func (n *Net) Unlock() { n.mu.Unlock() }
